@@ -73,7 +73,8 @@ AtEnd == pc > Len(P)
 
 R0 == [dw |-> 0, ds |-> 0, rvw |-> 0, newref |-> <<>>, assoc |-> <<>>, skipw |-> 0, bsrY |-> 0,
        strw |-> 0, dnp |-> 0, qa |-> "NA", bmst |-> "NA", n31 |-> 0, reuse |-> FALSE,
-       sel |-> <<>>, selpos |-> 1, brb |-> 0, backref |-> <<>>]
+       sel |-> <<>>, selpos |-> 1, brb |-> 0, backref |-> <<>>, bmbits |-> <<>>,
+       m31021 |-> 0, w8023 |-> FALSE, m8023 |-> 0, w8024 |-> FALSE, m8024 |-> 0]
 
 NSubCols == IF cmp THEN nsub ELSE 1        \* values carried by one output entry
 
@@ -155,7 +156,7 @@ Field(t, w, forced) ==
                 ELSE LET c == ReadNumColumn(t, w, pos, t = "code") IN {[vs |-> c.vs, fb |-> <<>>, n |-> c.n, ok |-> c.ok, d |-> c.d]}
 
 Entry(lab, t, w, sc, ref, link, plain, vs) ==
-    [lab |-> lab, t |-> t, w |-> w, sc |-> sc, ref |-> ref, link |-> link, plain |-> plain, v |-> vs, d |-> -1, p |-> pos]
+    [lab |-> lab, t |-> t, w |-> w, sc |-> sc, ref |-> ref, link |-> link, plain |-> plain, v |-> vs, d |-> -1, p |-> pos, mean |-> 0]
 
 (***************************************************************************)
 (* Control: moving to the next instruction, closing replication frames     *)
@@ -187,7 +188,7 @@ DefineBitmap(r, o) ==
                   ELSE IF Len(cand) >= n THEN SubSeq(cand, Len(cand) - n + 1, Len(cand)) ELSE cand
         ok == Len(window) = n
         sel == SelectSeq([i \in 1..Len(window) |-> IF i <= n /\ bm[i] = 0 THEN window[i] ELSE 0], LAMBDA x : x # 0)
-    IN [r EXCEPT !.backref = window, !.sel = sel, !.selpos = 1, !.bmst = IF ok THEN "NA" ELSE "ERR"]
+    IN [r EXCEPT !.backref = window, !.sel = sel, !.selpos = 1, !.bmbits = bm, !.bmst = IF ok THEN "NA" ELSE "ERR"]
 
 BmStep(r, id, o) ==
     CASE r.bmst = "INDICATOR" ->
@@ -259,7 +260,8 @@ Assoc ==
        IF r1.bmst = "ERR" THEN Fail("PyBufrKitError")
        ELSE \E f \in Field("code", AssocWidth(reg), <<>>) :
             IF ~f.ok THEN Fail("MalformedData") ELSE
-            /\ out' = Append(out, [Entry(Lab5("A", Ins.id), "code", AssocWidth(reg), 0, WZero, 0, FALSE, f.vs) EXCEPT !.d = f.d, !.p = pos + f.n])
+            /\ out' = Append(out, [Entry(Lab5("A", Ins.id), "code", AssocWidth(reg), 0, WZero, 0, FALSE, f.vs)
+                                      EXCEPT !.d = f.d, !.p = pos + f.n, !.mean = reg.m31021])
             /\ bits' = IF Mode = "produce" THEN bits \o f.fb ELSE bits
             /\ pos' = pos + f.n
             /\ reg' = r1
@@ -286,21 +288,31 @@ QaLink(r, id) ==
 InBitmapDef(r) == r.bmst \in {"WAITING", "COUNTING"}
 
 (* an element descriptor proper; id/w/sc/ref are given so that markers can reuse this *)
-ElemField(r, id, lab, kind, w0, sc0, ref0, plain, link0, nextpc) ==
+(* the element that gives an attribute its meaning: 031021 while associated fields are in force,
+   the first 008023 after 224000, the first 008024 after 225000 *)
+MeanStep(r, id, plain, idx) ==
+    IF ~plain THEN r
+    ELSE IF id = 31021 /\ r.assoc # <<>> THEN [r EXCEPT !.m31021 = idx]
+    ELSE IF id = 8023 /\ r.w8023 THEN [r EXCEPT !.m8023 = idx, !.w8023 = FALSE]
+    ELSE IF id = 8024 /\ r.w8024 THEN [r EXCEPT !.m8024 = idx, !.w8024 = FALSE]
+    ELSE r
+
+ElemField(r, id, lab, kind, w0, sc0, ref0, plain, link0, mean0, nextpc) ==
     LET link == IF link0 # 0 THEN link0 ELSE QaLink(r, id)
-        r2 == QaStep(r, id)
+        r2 == MeanStep(QaStep(r, id), id, plain, Len(out) + 1)
+        En(t, w, sc, ref, vs) == [Entry(lab, t, w, sc, ref, link, plain, vs) EXCEPT !.mean = mean0]
     IN IF link = -1 THEN Fail("StopIteration")
        ELSE IF kind = "str" THEN
             LET w == IF r.strw > 0 THEN 8 * r.strw ELSE 8 * (w0 \div 8) IN
-            \E f \in Field("str", w, <<>>) : PutField(Entry(lab, "str", w, 0, WZero, link, plain, f.vs), f, r2, nextpc)
+            \E f \in Field("str", w, <<>>) : PutField(En("str", w, 0, WZero, f.vs), f, r2, nextpc)
        ELSE IF kind = "code" THEN
             LET forcedSet == IF id = 31031 /\ InBitmapDef(r) /\ Mode = "produce" THEN {<<0>>, <<1>>} ELSE {<<>>} IN
             \E fo \in forcedSet : \E f \in Field("code", w0, fo) :
-                PutField(Entry(lab, "code", w0, 0, WZero, link, plain, f.vs), f, r2, nextpc)
+                PutField(En("code", w0, 0, WZero, f.vs), f, r2, nextpc)
        ELSE LET w == EffW(r, id, w0) IN
             IF w < 1 THEN Fail("ValueError")
             ELSE \E f \in Field("num", w, <<>>) :
-                 PutField(Entry(lab, "num", w, EffSc(r, id, sc0), EffRef(r, id, ref0), link, plain, f.vs), f, r2, nextpc)
+                 PutField(En("num", w, EffSc(r, id, sc0), EffRef(r, id, ref0), f.vs), f, r2, nextpc)
 
 Element ==
     /\ Normal /\ Ins.k = "E" /\ (phase = "main" \/ reg.assoc = <<>> \/ XX(Ins.id) = 31)
@@ -308,7 +320,7 @@ Element ==
        IF r1.bmst = "ERR" THEN Fail("PyBufrKitError")
        ELSE IF ~InB(Ins.id) THEN Fail("UnknownDescriptor")
        ELSE ElemField(r1, Ins.id, IdStr(Ins.id), Kind(Ins.id), BWidth(Ins.id), BScale(Ins.id),
-                      FromInt(BRef(Ins.id)), TRUE, 0, pc + 1)
+                      FromInt(BRef(Ins.id)), TRUE, 0, 0, pc + 1)
 
 Sequence ==
     /\ Normal /\ Ins.k = "S"
@@ -393,7 +405,7 @@ OperatorReg ==          \* operators that only change registers
               [] OpX = 207 -> SetReg([r1 EXCEPT !.bsrY = OpY])
               [] OpX = 208 -> SetReg([r1 EXCEPT !.strw = OpY])
               [] OpX = 221 -> SetReg([r1 EXCEPT !.dnp = OpY])
-              [] OpX = 235 -> SetReg([r1 EXCEPT !.backref = <<>>, !.sel = <<>>, !.selpos = 1])
+              [] OpX = 235 -> SetReg([r1 EXCEPT !.backref = <<>>, !.sel = <<>>, !.selpos = 1, !.bmbits = <<>>])
 
 (* 205YYY: YYY characters are inserted as a data field *)
 OperatorChars ==
@@ -409,7 +421,9 @@ OperatorBitmapIntro ==
     /\ LET r1 == Pre(reg, Ins, out) IN
        IF r1.bmst = "ERR" THEN Fail("PyBufrKitError")
        ELSE ConstField(IdStr(OpId), [r1 EXCEPT !.bmst = "INDICATOR", !.brb = Len(out),
-                                               !.qa = IF OpX = 222 THEN "Waiting" ELSE @])
+                                               !.qa = IF OpX = 222 THEN "Waiting" ELSE @,
+                                               !.w8023 = IF OpX = 224 THEN TRUE ELSE @,
+                                               !.w8024 = IF OpX = 225 THEN TRUE ELSE @])
 
 Operator236 ==
     /\ Normal /\ Ins.k = "O" /\ OpX = 236
@@ -436,7 +450,8 @@ OperatorMarker ==
                 lab == Lab5(MarkerPrefix(OpId), oid)
                 w0 == IF OpId = 225255 THEN BWidth(oid) + 1 ELSE BWidth(oid)
                 ref0 == IF OpId = 225255 THEN WNeg(FromBits(<<1>> \o Zeros(BWidth(oid)))) ELSE FromInt(BRef(oid))
-            IN ElemField(r2, oid, lab, Kind(oid), w0, BScale(oid), ref0, FALSE, owner, pc + 1)
+                mean0 == IF OpId = 224255 THEN r1.m8023 ELSE IF OpId = 225255 THEN r1.m8024 ELSE 0
+            IN ElemField(r2, oid, lab, Kind(oid), w0, BScale(oid), ref0, FALSE, owner, mean0, pc + 1)
 
 OperatorUnknown ==
     /\ Normal /\ Ins.k = "O"
@@ -506,4 +521,51 @@ CursorIsSumOfWidths == (~cmp /\ err = "") => pos = SumDone(done, 1) + SumW(out, 
 ProducedBitsMatchCursor == Mode = "produce" => Len(bits) = pos
 
 FramesNested == \A i \in 1..Len(frames) : frames[i].start <= frames[i].end /\ frames[i].left >= 1
+
+(***************************************************************************)
+(* C07: attributes and their owners, stated independently of sel / selpos  *)
+(***************************************************************************)
+(* the element at the k-th zero bit (k >= 1) of a bitmap laid over a window; 0 if there is none *)
+RECURSIVE NthZeroFrom(_, _, _, _)
+NthZeroFrom(window, bm, k, i) ==
+    IF i > Len(bm) \/ i > Len(window) THEN 0
+    ELSE IF bm[i] = 0 THEN (IF k = 1 THEN window[i] ELSE NthZeroFrom(window, bm, k - 1, i + 1))
+    ELSE NthZeroFrom(window, bm, k, i + 1)
+NthZero(window, bm, k) == NthZeroFrom(window, bm, k, 1)
+
+(* whenever a step appends a linked value, it belongs to the k-th zero bit of the governing bitmap,
+   k being the number of values taken from that bitmap since it was defined or recalled *)
+KthValueKthZero ==
+    [][(Len(out') = Len(out) + 1 /\ out'[Len(out')].link # 0)
+          => out'[Len(out')].link = NthZero(reg'.backref, reg'.bmbits, reg'.selpos - 1)]_vars
+
+(* the back-reference window consists of plain element entries that precede the operator *)
+BackRefWindowIsPlain ==
+    \A i \in 1..Len(reg.backref) : reg.backref[i] \in 1..Len(out) /\ out[reg.backref[i]].plain
+BackRefWindowAscending ==
+    \A i \in 1..(Len(reg.backref) - 1) : reg.backref[i] < reg.backref[i + 1]
+
+(* an associated field is directly followed by the element it belongs to *)
+AssocPrecedesOwner ==
+    \A i \in 1..(Len(out) - 1) :
+        SubSeq(out[i].lab, 1, 1) = "A" =>
+            /\ SubSeq(out[i + 1].lab, 2, 6) = SubSeq(out[i].lab, 2, 6)
+            /\ SubSeq(out[i + 1].lab, 1, 1) # "A"
+
+(* difference statistics: one bit wider than the owner, reference -2^width (before 201/207 effects) *)
+DiffStatsParams ==
+    \A i \in 1..Len(out) :
+        (SubSeq(out[i].lab, 1, 1) = "D" /\ out[i].t = "num" /\ reg.dw = 0 /\ reg.bsrY = 0) =>
+            LET oid == ToInt(out[out[i].link].lab) IN
+            /\ out[i].w = BWidth(oid) + 1
+            /\ out[i].ref = WNeg(FromBits(<<1>> \o Zeros(BWidth(oid))))
+
+(* the meaning attached to an attribute is the right kind of element and precedes it *)
+MeaningIsRightElement ==
+    \A i \in 1..Len(out) : out[i].mean # 0 =>
+        /\ out[i].mean < i
+        /\ out[out[i].mean].lab = (CASE SubSeq(out[i].lab, 1, 1) = "A" -> "031021"
+                                      [] SubSeq(out[i].lab, 1, 1) = "F" -> "008023"
+                                      [] SubSeq(out[i].lab, 1, 1) = "D" -> "008024"
+                                      [] OTHER -> "none")
 =============================================================================
